@@ -2,6 +2,7 @@ package props
 
 import (
 	"fmt"
+	"github.com/db47h/decimal"
 	"math"
 	"math/big"
 	"strconv"
@@ -149,7 +150,7 @@ func genC13(t *rapid.T) C13Case {
 		c.Width = rapid.IntRange(1, 40).Draw(t, "width")
 		if rapid.IntRange(0, 7).Draw(t, "padcls") == 0 {
 			// padding amounts around the sizes an implementation might write in chunks
-			c.Pad = rapid.SampledFrom([]int{31, 32, 33, 63, 64, 65, 127, 128, 129, 255, 256, 257, 384, 512, 1000, 1024}).Draw(t, "pad")
+			c.Pad = rapid.SampledFrom([]int{31, 32, 33, 63, 64, 65, 127, 128, 129, 255, 256, 257, 384, 512, 1000, 1024, 2048, 4095, 4096, 4097, 8191, 8192, 8193, 8200, 16384, 65537, 300000}).Draw(t, "pad")
 		}
 	}
 	return c
@@ -289,7 +290,7 @@ func checkC13(c C13Case, o *h.Obs) *h.Fail {
 	return nil
 }
 
-const ruleC13 = "rapid-generated (value, verb/format, precision -1..40 or near the value's digit count / leading-digit position, flags from {+, space, 0, -}, width 0..40). Append onto prefixes that look like parts of a number ('v1.0: ', '-0.5e+07 ', '9.', 'Inf') must equal prefix + Text. Two oracles. (f64) the value is the exact decimal expansion (<= 767 digits) of a float64 (uniform bits, subnormals, extremes, decimal-looking values n/10^k, dyadic fractions, +-0, +-Inf), mode ToNearestEven: Text(c,p) == strconv.FormatFloat(f,c,p,64) for p >= 0 and fmt.Sprintf(spec, x) == fmt.Sprintf(spec, f). (ref) any Decimal incl. dirty zeros/infinities and 1-12 digit values with tie/all-nines patterns at exponents -45..25, under its own rounding mode: Text == reference formatter (round once with the reference rounding at the requested position, which may lie at or above the leading digit, then strconv's e/f/g layout rules; p and b per the Text documentation), and Format == fmt's sign/width/flag rules applied to that body (the emulation is itself cross-checked against fmt on every f64 case). In one case in eight with a width the width is chosen from the formatted length so that the padding is exactly 31..33, 63..65, 127..129, 255..257, 384, 512, 1000 or 1024 bytes. '-' together with '0' is checked like every other combination ('-' wins, as in fmt). Excluded by construction and counted: '+'/' ' with %v in the fmt differential (fmt's plusV), 'f' with |exp| > 5000. Non-trivial = the value has more digits than requested, or the rounding position is at/above the leading digit, or flags/width are non-default."
+const ruleC13 = "rapid-generated (value, verb/format, precision -1..40 or near the value's digit count / leading-digit position, flags from {+, space, 0, -}, width 0..40). Append onto prefixes that look like parts of a number ('v1.0: ', '-0.5e+07 ', '9.', 'Inf') must equal prefix + Text. Two oracles. (f64) the value is the exact decimal expansion (<= 767 digits) of a float64 (uniform bits, subnormals, extremes, decimal-looking values n/10^k, dyadic fractions, +-0, +-Inf), mode ToNearestEven: Text(c,p) == strconv.FormatFloat(f,c,p,64) for p >= 0 and fmt.Sprintf(spec, x) == fmt.Sprintf(spec, f). (ref) any Decimal incl. dirty zeros/infinities and 1-12 digit values with tie/all-nines patterns at exponents -45..25, under its own rounding mode: Text == reference formatter (round once with the reference rounding at the requested position, which may lie at or above the leading digit, then strconv's e/f/g layout rules; p and b per the Text documentation), and Format == fmt's sign/width/flag rules applied to that body (the emulation is itself cross-checked against fmt on every f64 case). In one case in eight with a width the width is chosen from the formatted length so that the padding is exactly 31..33, 63..65, 127..129, 255..257, 384, 512, 1000, 1024, 2048, 4095..4097, 8191..8193, 8200, 16384, 65537 or 300000 bytes. '-' together with '0' is checked like every other combination ('-' wins, as in fmt). Excluded by construction and counted: '+'/' ' with %v in the fmt differential (fmt's plusV), 'f' with |exp| > 5000. Non-trivial = the value has more digits than requested, or the rounding position is at/above the leading digit, or flags/width are non-default."
 
 // carryPastMaxExp: rounding x at the requested position carries into a power of
 // ten whose exponent is MaxExp+1, which the temporary Decimal used by Append
@@ -324,3 +325,64 @@ var propC13 = &h.Prop[C13Case]{ID: "C13", Rule: ruleC13, Gen: genC13, Check: che
 
 func TestC13(t *testing.T)       { propC13.Search(t) }
 func TestC13Replay(t *testing.T) { propC13.Replay(t) }
+
+// TestC13Grid: the f layout of values with a million zeros before or after the digits (the generated cases keep
+// |exponent| below 5000 for f, whose output is as long as the exponent is large): expected text built by hand.
+func TestC13Grid(t *testing.T) {
+	defer h.WriteStats("C13")
+	n := 0
+	for _, e := range []int{1000003, 1<<20 + 1, 2500000} {
+		for _, prec := range []int{0, 2, -1} {
+			x := h.Spec{F: "f", D: "123", E: int64(e + 3), P: 3, M: 0, Neg: n%2 == 1}.Build() // 123 x 10^e
+			want := "123" + strings.Repeat("0", e)
+			if prec > 0 {
+				want += "." + strings.Repeat("0", prec)
+			}
+			y := h.Spec{F: "f", D: "123", E: int64(-e), P: 3, M: 0, Neg: n%2 == 1}.Build() // 0.000...0123
+			wantY := "0." + strings.Repeat("0", e) + "123"
+			if prec >= 0 {
+				wantY = "0"
+				if prec > 0 {
+					wantY += "." + strings.Repeat("0", prec)
+				}
+			}
+			if n%2 == 1 {
+				want, wantY = "-"+want, "-"+wantY
+			}
+			o := &h.Obs{}
+			o.Label("giant-f")
+			o.NonTrivial()
+			for _, tc := range []struct {
+				d    *decimal.Decimal
+				want string
+			}{{x, want}, {y, wantY}} {
+				if got := tc.d.Text('f', prec); got != tc.want {
+					h.ReportGridFail(t, "C13", h.Failf("giant-f", "Text('f', %d) of a value with exponent about +-%d: %d bytes, want %d; first difference at byte %d", prec, e, len(got), len(tc.want), firstDiff(got, tc.want)), mustJSON(struct{ E, Prec int }{e, prec}))
+				}
+				if got := fmt.Sprintf("%.*f", func() int {
+					if prec < 0 {
+						return 1
+					}
+					return prec
+				}(), tc.d); prec >= 0 && got != tc.want {
+					h.ReportGridFail(t, "C13", h.Failf("giant-f", "Sprintf(%%.%df) of a value with exponent about +-%d: %d bytes, want %d", prec, e, len(got), len(tc.want)), mustJSON(struct{ E, Prec int }{e, prec}))
+				}
+			}
+			h.RecordGrid("C13", o, struct{ E, Prec int }{e, prec})
+			n++
+		}
+	}
+	h.AddExtra("C13", "giant_f_cases", n)
+}
+
+func firstDiff(a, b string) int {
+	for i := 0; i < len(a) && i < len(b); i++ {
+		if a[i] != b[i] {
+			return i
+		}
+	}
+	if len(a) < len(b) {
+		return len(a)
+	}
+	return len(b)
+}
